@@ -29,6 +29,7 @@ type Env struct {
 	reach string
 	oldNowT string
 	noHints bool
+	frames  *[]frameReq // assumption side: lazily framed unchanged() requests
 	depthHints int
 	pol     int // +1: the expression is a proof goal; -1: an assumption; 0: unknown
 	errs  *[]string
@@ -286,13 +287,22 @@ func (e *Env) lookupIdent(name string) (Val, bool) {
 			return e.eval(se), true
 		}
 	}
-	if e.fr != nil && e.fr.top.contract != nil {
-		for _, gv := range e.fr.top.contract.GhostVars {
-			if gv.Name == name {
-				fam := "GV_" + funcKey(e.fr.top.fn) + "." + name
-				srt := specSort(gv.GType)
-				vc.family(fam, srt)
-				return Val{L: []string{vc.lookup(e.heap, fam)}, S: []string{srt}}, true
+	if e.fr != nil {
+		for _, own := range []*Frame{e.fr, e.fr.top} {
+			oc := own.contract
+			if oc == nil {
+				oc = own.ownContract()
+			}
+			if oc == nil {
+				continue
+			}
+			for _, gv := range oc.GhostVars {
+				if gv.Name == name {
+					fam := "GV_" + funcKey(own.fn) + "." + name
+					srt := specSort(gv.GType)
+					vc.family(fam, srt)
+					return Val{L: []string{vc.lookup(e.heap, fam)}, S: []string{srt}}, true
+				}
 			}
 		}
 	}
@@ -576,6 +586,14 @@ func (e *Env) selectField(v Val, name string, src string) Val {
 	T := v.Typ
 	isPtr := false
 	if _, ok := T.Underlying().(*types.Interface); ok {
+		if gf, ok := vc.S.Ghosts["iface."+name]; ok {
+			// ghost state of the object behind ANY interface value (e.g. a socket seen as
+			// net.PacketConn, transport.UDPConn or io.Closer): keyed by the payload only
+			fam := "H_iface." + name
+			srt := specSort(gf.GType)
+			vc.family(fam, "(Array Int "+srt+")")
+			return Val{L: []string{"(select " + vc.lookup(e.heap, fam) + " " + v.L[1] + ")"}, S: []string{srt}}
+		}
 		if gf, ok := vc.S.Ghosts[vc.typeName(T)+"."+name]; ok {
 			fam := "H_" + vc.typeName(T) + "." + name
 			srt := specSort(gf.GType)
@@ -925,6 +943,12 @@ func (e *Env) evalCall(t *ast.CallExpr) Val {
 			} else {
 				e.errf("unchangedExcept takes string patterns")
 			}
+		}
+		if e.pol < 0 && e.frames != nil {
+			// assumed, not proved: install a lazy frame instead of one quantified fact per family
+			u := vc.fresh("unchanged", "Bool")
+			*e.frames = append(*e.frames, frameReq{cond: u, except: except})
+			return boolVal(u)
 		}
 		return boolVal(vc.unchangedFormula(e.old, e.heap, e.oldNow(), except))
 	case "store":
@@ -1293,4 +1317,9 @@ func (vc *VC) registerAllFamilies() {
 		i := strings.LastIndex(k, ".")
 		vc.family("H_"+k[:i]+"."+gf.Name, "(Array Int "+specSort(gf.GType)+")")
 	}
+}
+
+type frameReq struct {
+	cond   string
+	except map[string]bool
 }
